@@ -131,9 +131,19 @@ package core
 //@ func (*IndexedState).add
 //@   ghost-ensures ite(is(result1, *ExpiredError), owed == id, owed == old(owed))
 //@   also-modifies owed
+// Storage back ends are assumed not to modify contexts, states or locations.
 //@ iface Storage.Remove
 //@   ghost-ensures ite(result1 == nil && old(str(k)) == old(owed), owed == "", owed == old(owed))
 //@   also-modifies owed
+//@   modifies allbut(F:core.Context.|F:core.IndexedState.|F:core.LinearState.|F:core.Location.)
+//@ iface Storage.Add
+//@   modifies allbut(F:core.Context.|F:core.IndexedState.|F:core.LinearState.|F:core.Location.)
+//@ iface Storage.Load
+//@   modifies allbut(F:core.Context.|F:core.IndexedState.|F:core.LinearState.|F:core.Location.)
+//@ iface Storage.Clear
+//@   modifies allbut(F:core.Context.|F:core.IndexedState.|F:core.LinearState.|F:core.Location.)
+//@ iface Storage.Delete
+//@   modifies allbut(F:core.Context.|F:core.IndexedState.|F:core.LinearState.|F:core.Location.)
 //@ func (*IndexedState).Load
 //@   assume-entry owed == ""
 //@   loop 1: invariant[C07.ix_load_purges_expired] owed == ""
